@@ -42,6 +42,8 @@ namespace
         size_t live      = 0;
         size_t max_node  = 1 << 16;
         unsigned calls   = 0;
+        bool   shrinking = false; // report the remaining capacity as maximum (like static_allocator,
+                                  // iteration_allocator: the maxima move while memory is in use)
     };
 
     // full-concept composable stateful RawAllocator; distinct types per position
@@ -102,11 +104,11 @@ namespace
         }
         std::size_t max_node_size() const
         {
-            return st->max_node;
+            return st->shrinking ? st->cap_bytes - st->live : st->max_node;
         }
         std::size_t max_array_size() const
         {
-            return st->cap_bytes;
+            return st->shrinking ? st->cap_bytes - st->live : st->cap_bytes;
         }
         std::size_t max_alignment() const
         {
@@ -641,13 +643,9 @@ namespace
             }
             if (c->thresholds[0])
             {
-                // segregator: at or below the threshold goes to that segregatable
+                // (which allocator a segregator picks is not part of the property; only that the
+                // release goes where the allocation went — the leaves check that)
                 size_t key = r.array ? r.bytes() : r.size;
-                int expect = key <= c->thresholds[0] ? 0 : (c->thresholds[1] && key <= c->thresholds[1] ? 1 : (c->thresholds[1] ? 2 : 1));
-                if (a.owner != env.leaves[expect].owner)
-                    fail("segregator-route", "request of " + std::to_string(key) + " bytes went to leaf "
-                                                 + std::to_string(a.owner - env.leaves[0].owner)
-                                                 + ", expected leaf " + std::to_string(expect));
                 (key <= c->thresholds[0] ? n_below : n_above)++;
             }
             if (c->has_tracker)
@@ -891,7 +889,20 @@ namespace
             if (prop == "C09")
                 env.leaves[0].cap_bytes = P(5) % 3 ? size_t(1) << 22 : caps[P(5) % 6];
             env.leaves[3].cap_bytes = size_t(1) << 24;
-            if (P(0) % 20 == 15)
+            if (P(7) % 3 == 1 && P(0) % 20 != 15)
+            {
+                // the maxima of the leaves move with use (documented for static_allocator,
+                // iteration_allocator, memory_stack). Recorded finding F16: memory_resource_adapter
+                // re-derives node/array from the *current* max_node_size() on release - excluded here
+                for (int i = 0; i < 3; ++i)
+                    env.leaves[i].shrinking = true;
+                ci.classes.insert("moving-maxima");
+            }
+            if (P(7) == 998 && P(0) % 20 == 15)
+                env.leaves[0].shrinking = true; // probe program of F16 only
+            if (P(0) % 20 == 15 && P(7) == 998)
+                env.leaves[0].cap_bytes = 30000;
+            else if (P(0) % 20 == 15)
             {
                 // memory_resource_adapter: a small max_node_size so that requests straddle it
                 static const size_t mx[] = {64, 100, 256, 1000, size_t(1) << 22};
